@@ -1,6 +1,8 @@
 package ast
 
 import (
+	"maps"
+	"slices"
 	"strconv"
 	"strings"
 )
@@ -418,7 +420,8 @@ func (m *MapExpr) writeTo(sb *strings.Builder) {
 		done = true
 		sb.WriteString(v.String())
 	}
-	for k, v := range m.Fields {
+	for _, k := range slices.Sorted(maps.Keys(m.Fields)) { // fields in the order of their names
+		v := m.Fields[k]
 		if done {
 			sb.WriteString(", ")
 		}
